@@ -27,6 +27,12 @@ def programs(t):
         for le in ([-3, -1, 0, 2] if not t else [-4, -3, -2, -1, 0, 1, 2, 3]):
             for re in ([-3, -1, 0, 2] if not t else [-4, -3, -2, -1, 0, 1, 2, 3]):
                 lines.append('P(%s, %d, %s, %d, 10)' % (l, le, r, re))
+    # radix 10 / 3 with large exponent gaps on 8-bit reps (power_value recursion depth; only small operands fit, which the precondition sorts out)
+    for (l, r) in [('i8', 'i8'), ('u8', 'u8'), ('i8', 'i32')]:
+        for (le, re) in ([(0, -6), (-7, 0), (1, -8), (-9, 0)] if not t else [(0, -6), (-6, 0), (0, -7), (-7, 0), (1, -7), (0, -8), (-8, 0), (0, -9), (-9, 0), (2, -6)]):
+            lines.append('P(%s, %d, %s, %d, 10)' % (l, le, r, re))
+    for (le, re) in ([(0, -12), (-15, 0)] if not t else [(0, -12), (-12, 0), (0, -15), (-15, 0), (0, -19), (3, -9)]):
+        lines.append('P(i8, %d, i8, %d, 3)' % (le, re))
     if t:
         for le in (-2, 0, 1):
             for re in (-2, 0, 1):
